@@ -370,6 +370,9 @@ class Run:
         self.shared_registrations = 0
         self.plain_phase_calls = 0
         self.nested_tree_probes = 0
+        self.late_context_probes = 0
+        self.app_tg: Any = None
+        self.after_startup = anyio.Event()
         run = self
 
         class Pool:
@@ -519,6 +522,20 @@ class Run:
                     c = Context()
                     if c.parent is not run.caller_ctx:
                         run.ctx_parent_ok = False
+                    if phase == "start" and run.app_tg is not None:
+                        # ... and so does one created, long after the start-up, by a task that was spawned from here into a task
+                        # group of the application (it inherited this component's context as its current context)
+                        async def per_request() -> None:
+                            await run.after_startup.wait()
+                            await anyio.sleep(1)
+                            run.late_context_probes += 1
+                            try:
+                                if Context().parent is not run.caller_ctx:
+                                    run.ctx_parent_ok = False
+                            except Exception:
+                                run.ctx_parent_ok = False
+
+                        run.app_tg.start_soon(per_request)
             except BaseException as e:
                 run.log("phase-abort", path, phase=phase, exc=describe_exc(e), cancelled=is_cancellation(e))
                 raise
@@ -793,14 +810,19 @@ class Run:
                 self.caller_ctx = ctx
                 self.t_call = anyio.current_time()
                 self.log("call", "harness", timeout=timeout)
-                try:
-                    self.returned = await start_component(self.type_arg(""), {**config, **self.extra_kwargs("")}, timeout=timeout)
-                except BaseException as e:
-                    self.raised = e
-                    self.log("raised", "harness", exc=describe_exc(e))
-                else:
-                    self.log("returned", "harness")
-                await anyio.sleep(WINDOW)
+                # (an application-level task group that outlives the start-up: components may hand it long-running tasks)
+                async with anyio.create_task_group() as app_tg:
+                    self.app_tg = app_tg
+                    try:
+                        self.returned = await start_component(self.type_arg(""), {**config, **self.extra_kwargs("")}, timeout=timeout)
+                    except BaseException as e:
+                        self.raised = e
+                        self.log("raised", "harness", exc=describe_exc(e))
+                    else:
+                        self.log("returned", "harness")
+                    self.after_startup.set()
+                    await anyio.sleep(WINDOW)
+                    app_tg.cancel_scope.cancel()
                 self.log("window-end", "harness")
                 for ti, T in enumerate(RTYPES):
                     self.visible_after[str(ti)] = dict(ctx.get_resources(T))
@@ -988,6 +1010,8 @@ def check_success(run: Run, *, exact_schedule: bool = True) -> tuple[list[dict[s
         inc("optional_lookups_through_inject", run.via_inject)
     if run.annotated_factories:
         inc("factories_typed_by_a_union_return_annotation", run.annotated_factories)
+    if run.late_context_probes:
+        inc("contexts_created_after_startup_by_a_task_spawned_from_a_component", run.late_context_probes)
     if run.nested_tree_probes:
         inc("contexts_created_in_a_component_tree_started_inside_a_component", run.nested_tree_probes)
     if run.plain_phase_calls:
